@@ -201,6 +201,8 @@ S_TEMPLATES: List[List[str]] = [
     ["analog_write(6, abs(x) % 200)"],
     ["digital_write(8, HIGH)", "mon.write(digital_read(8))", "digital_write(8, LOW)"],
     ['a = analog_read("A0") - 10', "x = x + a"],
+    ["x, u = y, x + 1", "mon.write(u)"],     # tuple assignment that binds one declared and one new name
+    ["u = u + x", "mon.write(u)"],           # uses the name the previous template introduces (NameError otherwise: skipped)
 ]
 S_CORE = [0, 1, 4, 6, 8, 10, 12, 14, 18, 21, 25, 29, 31, 32, 35, 39, 42]
 
@@ -213,7 +215,7 @@ def _seqs(n_symbols: Sequence[int], k: int) -> Iterator[tuple]:
 def _once_only(seq) -> bool:
     """Templates that introduce a fresh name may appear once per sequence (a second copy would be a
     plain re-assignment and is covered by the other templates)."""
-    fresh = [i for i in seq if S_TEMPLATES[i][0].split(" ")[0] in ("w", "v", "g", "k")]
+    fresh = [i for i in seq if S_TEMPLATES[i][0].split(" ")[0] in ("w", "v", "g", "k", "x,")]
     return len(fresh) == len(set(fresh))
 
 
@@ -336,6 +338,7 @@ F_DEFS = {
     "cnt": ["def cnt():", "    return 4"],
     "early": ["def early(v):", "    if v < 0:", "        return 0", "    mon.write(v)", "    return v * 2"],
     "bump": ["def bump():", "    global x", "    x = x + 1"],
+    "setg": ["def setg():", "    global g", "    g = 120"],
     "noisy": ["def noisy(v):", "    mon.write(v)", "    return v + 1"],
     "bump2": ["def bump2():", "    global x, y", "    x = x + 1", "    y = y + 2"],
     "bump3": ["def bump3(v):", "    global y, x", "    x = v", "    y = v + 1", "    return x + y"],
@@ -363,6 +366,9 @@ F_CALLS = [
     (["inc"], ["mon.write(max(inc(a), b))"]),
     (["inc", "add"], ["if inc(a) > b:", "    x = add(a, b)"]),
     (["bump"], ["bump()", "bump()"]),
+    (["setg"], ["setg()", "g = 200", "mon.write(g)"]),          # the helper assigns the global before its first top-level assignment
+    (["setg"], ["setg()", "g, g2 = 200, 3", "mon.write(g)"]),
+    (["setg"], ["g = 200", "setg()", "mon.write(g)", "g = 7", "mon.write(g)"]),
     (["noisy"], ["mon.write(max(noisy(a), 3))"]),
     (["noisy"], ["x = min(noisy(b), noisy(a))"]),
     (["noisy"], ["y = abs(noisy(a)) + max(noisy(b), noisy(a), 2)"]),
